@@ -1,0 +1,17 @@
+//go:build verif
+
+// Contracts for internal/seq/slice (property C19). Comment-only file: see /verif/DESIGN.md section 2.1.
+//
+// Memory abstraction: a slice is a mathematical sequence. That is sound only while no
+// write can be observed through an alias: appending to, or storing into, a slice that is
+// not fresh in the function fails obligations model:append-to-fresh-slice /
+// model:store-to-fresh-slice (this is what "Cons and Tail never change the sequence they
+// were given" needs).
+
+package slice
+
+//@ fileprops C19
+
+//@ type Trait implements seq.Seq
+//@   model elems(self, s) = s
+//@   model wf(self, s) = true
